@@ -13,7 +13,7 @@ BATCH = 50
 CASE_WALL_S = 60.0
 EXHAUSTIVE = True
 RULE = ("case = a byte stream (grammar-generated hostile stream, tests/requests corpus file, mutated valid request or "
-        "random bytes) x worker family (sync, gthread, async) x keep-alive setting x segmentation.  For every case: a "
+        "random bytes) x worker family (sync, gthread, async) x TCP or unix-socket peer x keep-alive setting x segmentation.  For every case: a "
         "fault-free pass counts the connection's I/O operations (recv/send/sendall/sendfile/shutdown), then ONE RUN PER "
         "(operation index, fault in {EOF, ECONNRESET, EPIPE, ENOTCONN}) - exhaustive over crash points of that workload - "
         "plus client half-close at seeded (thorough: all) offsets; after each run a second, valid connection goes to the "
@@ -74,7 +74,8 @@ def make_case(index, rng, tier):
         truncs = list(range(total + 1))
     return {"msgs": [b2j(m) for m in msgs], "family": family, "keepalive": rng.choice([0, 2, 2]),
             "prog": rng.randrange(len(PROG)), "seg": rng.choice(["max", "k", "small"]), "truncs": truncs,
-            "cfg": rng.choice([{}, {}, {"limit_request_line": 64}, {"limit_request_fields": 3}])}
+            "cfg": rng.choice([{}, {}, {"limit_request_line": 64}, {"limit_request_fields": 3}]),
+            "unix": rng.randrange(4) == 0}
 
 
 def _cuts(seg, n, choices):
@@ -98,7 +99,8 @@ def one_run(res, log, case, data, cuts, fault_at, fault_kind, yielded, label):
     cfg = conn.make_cfg(keepalive=case["keepalive"], **case["cfg"])
     state = conn.AppState()
     worker = conn.make_worker(case["family"], cfg, conn.make_app([PROG[case["prog"]]], state))
-    sock = conn.SimSock(data, cuts, fault_at=fault_at, fault_kind=fault_kind)
+    unix = case.get("unix")
+    sock = conn.SimSock(data, cuts, fault_at=fault_at, fault_kind=fault_kind, **({"peer": "", "name": "/run/g.sock"} if unix else {}))
     esc = conn.serve(worker, case["family"], sock)
     fam = case["family"]
     ctx = lambda: "%s family=%s keepalive=%s cfg=%r stream=%s wire=%s" % (
@@ -145,7 +147,7 @@ def one_run(res, log, case, data, cuts, fault_at, fault_kind, yielded, label):
         res.violate("C05:%s:wire:trailing-bytes" % fam, "unparsed bytes after the last response: %s; %s" % (bsafe(rest, 60), ctx()))
     # follow-up connection on the same worker object
     before = state.calls
-    s2 = conn.SimSock(FOLLOW, ())
+    s2 = conn.SimSock(FOLLOW, (), **({"peer": "", "name": "/run/g.sock"} if unix else {}))
     esc2 = conn.serve(worker, fam, s2)
     r2, p2, rest2 = resp_ref.parse(bytes(s2.wire), [{"method": "GET"}])
     ok = (esc2 is None and state.calls == before + 1 and len(r2) == 1 and r2[0]["code"] == 200
